@@ -14,6 +14,7 @@ import (
 	"github.com/cockroachdb/pebble/bloom"
 	"github.com/shirou/gopsutil/mem"
 	"github.com/youzan/ZanRedisDB/common"
+	"github.com/youzan/ZanRedisDB/internal/verifhook"
 )
 
 const (
@@ -560,5 +561,6 @@ func (pck *pebbleEngCheckpoint) Save(path string, notify chan struct{}) error {
 			close(notify)
 		})
 	}
+	verifhook.Crash("ckpt.engine_begin")
 	return pck.pe.eng.Checkpoint(path)
 }
